@@ -113,8 +113,11 @@ func (m *Message) Reset(arena Arena) {
 		c.Release()
 	}
 	m.CapTable = nil
-	m.rlimitInit.Do(func() {})
-	m.initReadLimit()
+	// Start over with the read limit; like that of a new Message it is
+	// taken from TraverseLimit when the message is first read, so that a
+	// TraverseLimit set after Reset (or on the message returned by a
+	// Decoder that reuses its buffer) is honoured.
+	m.rlimitInit = sync.Once{}
 }
 
 func (m *Message) initReadLimit() {
